@@ -226,6 +226,8 @@ class ValueGen:
         tags = [f for f in m.union_all_fields(d) if not getattr(f, 'implicit', False)]
         if tag is not None:
             tags = [f for f in tags if f.name == tag]
+        if depth > self.max_depth + 6:
+            raise Uninhabited(d.name)      # only reachable through its own typed tags
         if depth >= self.max_depth:
             voids = [f for f in tags if f.type is None]
             nulls = [f for f in tags if f.type is not None and m.is_nullable(f.type)]
